@@ -267,7 +267,7 @@ def correspond(ctx):
         m = re.search(r"M\s*=\s*(.*?)\s*:\s*list \(nat \* Z\)", o, re.S)
         if rc2 != 0 or not m:
             c.mismatches.append({"kind": "coq-eval", "shard": name, "output": o[-1500:]}); continue
-        for i, code in re.findall(r"\((\d+)(?:%nat)?,\s*(\d+)(?:%Z)?\)", m.group(1)):
+        for i, code in re.findall(r"\(\s*(\d+)(?:%nat)?\s*,\s*(\d+)(?:%Z)?\s*\)", m.group(1)):
             code = int(code)
             c.mismatches.append({"kind": "events", "differs": [n for b, n in ((1, "daily record dates"), (2, "yearly record dates"), (4, "crop record count"), (8, "run result")) if code & b],
                                  "case": _describe(ev_idx[int(i)])})
